@@ -1,0 +1,13 @@
+//go:build verif
+
+// Contracts for package cte, read as text by the verification-condition generator in /verif.
+// This file contains no code; with the build tag off it is not part of the build at all.
+
+package cte
+
+// Document size limit (C14): the whole input is measured at once.
+//@ func (*Decoder).markBytesRead
+//@   requires _this.config != nil
+//@   panics uint64(byteCount) > _this.config.Rules.MaxDocumentSizeBytes
+//@ func (*Decoder).errorf
+//@   noreturn
